@@ -436,7 +436,7 @@ def shards(tier: str) -> list[dict[str, Any]]:
     if tier == "quick":
         return [{"what": "demux", "n": 230} for _ in range(12)] + [{"what": "act-gen", "n": 300}, {"what": "act-grid", "types": list(range(256)), "codes": [0x10, 0x00, 0x06, 0x11]},
                                                                    {"what": "act-grid", "types": [0, 1], "codes": list(range(256))}, {"what": "act-gen", "n": 300}]
-    return [{"what": "demux", "n": 9000} for _ in range(12)] + [{"what": "act-gen", "n": 5000}] + \
+    return [{"what": "demux", "n": 25000} for _ in range(12)] + [{"what": "act-gen", "n": 15000}] + \
         [{"what": "act-grid", "types": list(range(i, 256, 8)), "codes": list(range(256))} for i in range(8)]
 
 
